@@ -406,18 +406,20 @@ def _inimage_answer(ex, st, post, result):
     if not ok:
         return
     ct = resp[0].kwargs['content_type']
-    if isinstance(ct, VNone):
-        g = z3.BoolVal(True)
-    elif hasattr(ct, 'isnone'):
-        # (an absent or empty FORMAT declares nothing: the Response default applies)
-        g = z3.Or(ct.isnone, ct.val.t == z3.StringVal(''), z3.Contains(ct.val.t, z3.StringVal('/')))
-    elif isinstance(ct, VStr):
-        g = z3.Or(ct.t == z3.StringVal(''), z3.Contains(ct.t, z3.StringVal('/')))
-    else:
-        g = z3.BoolVal(False)
+    io = [e for i, e in T.evs(st, 'ImageOptions')]
+    ff = [e for i, e in T.evs(st, 'filter_format')]
+    t = getattr(ct, 't', None)
+    ok_ct = t is not None and len(io) == 1 and len(ff) == 1 and mi[0].kwargs.get('image_opts') is io[0].result
+    g = z3.BoolVal(bool(ok_ct))
+    if ok_ct:
+        # 'image/' + <format the image was encoded with, lower case>: never the raw FORMAT parameter
+        fa = ff[0].args[0]
+        from_opts = hasattr(fa, 't') and any(x.eq(io[0].result.t) for x in _subterms18(fa.t))
+        made = hasattr(ff[0].result, 't') and any(x.eq(ff[0].result.t) for x in _subterms18(t))
+        g = z3.And(z3.BoolVal(bool(from_opts and made)), z3.PrefixOf(z3.StringVal('image/'), t) if z3.is_string(t) else z3.BoolVal(False))
     yield ('declared_type_is_a_media_type', g,
-           "the declared Content-type of an in-image error is a media type (type/subtype): a WMS 1.0.0 style format name (PNG, JPEG) is "
-           "declared as image/<name>, never echoed bare")
+           "the declared Content-type of an in-image error is 'image/' + the (normalised, lower-case) format of the image options the "
+           'picture is encoded with - a media type of its own making, never the FORMAT parameter echoed into the header')
     size = mi[0].kwargs.get('size')
     g2 = z3.BoolVal(size is not None)
     if size is not None:
@@ -438,6 +440,7 @@ contract('mapproxy.request.wms.exception:WMSImageExceptionHandler.render', props
                         'msg': 'opaque'},
          stable_fields=['request', 'params', 'format', 'size', 'format_mime_type', 'msg'],
          opaque_spec={'_bgcolor': {'pure': True}, 'ImageOptions': {'pure': True}, 'message_image': {'pure': True}, 'as_buffer': {'pure': True},
-                      'Response': {'pure': True}, 'contains': {'returns': 'bool', 'pure': True}, 'lower': {'pure': True}},
-         opaque=['_bgcolor', 'Response'],
+                      'Response': {'pure': True}, 'contains': {'returns': 'bool', 'pure': True}, 'lower': {'pure': True},
+                      'filter_format': {'returns': 'str', 'pure': True}},
+         opaque=['_bgcolor', 'Response', 'filter_format'],
          trace=[_inimage_answer])
